@@ -333,13 +333,15 @@ def _call_args(c: ast.Call, names):
 
 class St:
     """abstract state of the solver loop (all components finite)"""
-    __slots__ = ("w", "pos", "zero", "dval", "U", "sync", "lc0")
+    __slots__ = ("w", "pos", "zero", "dval", "U", "sync", "lc0", "sol")
 
-    def __init__(self, w=False, pos=True, zero=True, dval=False, U="undef", sync="ok", lc0=None):
-        self.w, self.pos, self.zero, self.dval, self.U, self.sync, self.lc0 = w, pos, zero, dval, U, sync, lc0
+    def __init__(self, w=False, pos=True, zero=True, dval=False, U="undef", sync="ok", lc0=None, sol=True):
+        # sol: s_chol holds the least-squares solution of the CURRENT passive set (the ordered list; P follows it) - it goes stale with every change of the set and
+        # is re-established only by a solve (`pos` alone only says that the entries on P are positive, which the loop test establishes for whatever s_chol holds)
+        self.w, self.pos, self.zero, self.dval, self.U, self.sync, self.lc0, self.sol = w, pos, zero, dval, U, sync, lc0, sol
 
     def key(self):
-        return (self.w, self.pos, self.zero, self.dval, self.U, self.sync, self.lc0)
+        return (self.w, self.pos, self.zero, self.dval, self.U, self.sync, self.lc0, self.sol)
 
     def copy(self, **kw):
         s = St(*self.key())
@@ -348,7 +350,7 @@ class St:
         return s
 
     def __repr__(self):
-        return f"<w={'fresh' if self.w else 'STALE'} pos={self.pos} zero_outside={self.zero} d_valid={self.dval} U={self.U} P/list={self.sync} first_iter={self.lc0}>"
+        return f"<w={'fresh' if self.w else 'STALE'} pos={self.pos} zero_outside={self.zero} d_valid={self.dval} U={self.U} P/list={self.sync} first_iter={self.lc0} s_chol_solved={self.sol}>"
 
 
 def _nonempty_test(t: ast.AST):
@@ -414,6 +416,10 @@ class Machine:
                 Sn = {(St(*k).copy(sync="stale", pos=False, dval=False) if St(*k).sync == "warm" else St(*k)).key() for k in S}
                 Se = {(St(*k).copy(sync="ok") if St(*k).sync == "warm" else St(*k)).key() for k in S}
                 S1, S2 = (Sn, Se) if _nonempty_test(n.test) else (Se, Sn)
+            elif t in ("np.any(P)", "numpy.any(P)", "P.any()"):
+                # on the branch where P is empty, an all-zero s_chol IS the least-squares solution on the (empty) passive set
+                S1 = S
+                S2 = {(St(*k).copy(sol=True) if St(*k).zero else St(*k)).key() for k in S}
             else:
                 S1 = S2 = S
             return self.flow(n.body, set(S1)) | self.flow(n.orelse, set(S2))
@@ -503,7 +509,7 @@ class Machine:
                     self.fail(n, "the constraint fix solves with a Cholesky factor that does not correspond to the current ordered passive list", st)
                 if st.sync != "ok":
                     self.fail(n, "the constraint fix is entered while P and P_inorder disagree", st)
-                return st.copy(w=False, pos=False, zero=True, dval=False, sync="ok")
+                return st.copy(w=False, pos=False, zero=True, dval=False, sync="ok", sol=True)   # (its contract, judged below: the solution is recomputed on the reduced set)
             if any(x in names for x in ("d", "w", "s_chol", "P", "U", "P_inorder")):
                 self.fail(n, f"solver state {names} assigned from an unrecognised expression", st, undecided=True)
             return st
@@ -511,6 +517,9 @@ class Machine:
             if vt in ("np.zeros(n)", "numpy.zeros(n)"):
                 return st.copy(w=False, dval=True)  # before any index enters P
             if vt == "s_chol.copy()" or vt == "np.copy(s_chol)" or vt == "np.array(s_chol)":
+                if not st.sol:
+                    self.fail(n, "`d` is taken from `s_chol` although `s_chol` was not recomputed (solved) after the last change of the passive set: it is not the least-squares solution on that set", st)
+                    return st.copy(w=False, dval=False)
                 if not (st.pos and st.zero):
                     self.fail(n, "`d` is taken from the least-squares solution before it is known to be positive on the passive set and zero outside it", st)
                     return st.copy(w=False, dval=False)
@@ -526,14 +535,14 @@ class Machine:
             return st.copy(w=False)
         if tt == "s_chol":
             if vt in ("np.zeros(n)", "numpy.zeros(n)"):
-                return st.copy(zero=True, pos=(st.sync == "ok" and st.pos))
+                return st.copy(zero=True, pos=(st.sync == "ok" and st.pos), sol=(st.sync == "ok" and st.pos and st.sol))
             self.fail(n, "`s_chol` rebound to an unrecognised expression", st, undecided=True)
-            return st.copy(pos=False, zero=False)
+            return st.copy(pos=False, zero=False, sol=False)
         if tt == "P":
             if vt in ("np.zeros(n,dtype=bool)", "numpy.zeros(n,dtype=bool)"):
                 return st.copy(pos=True, sync="ok")
             self.fail(n, "`P` rebound to an unrecognised expression", st, undecided=True)
-            return st.copy(pos=False, sync="stale", dval=False)
+            return st.copy(pos=False, sync="stale", dval=False, sol=False)
         if tt == "U":
             if vt in ("slg.cholesky(ZTZ[P_inorder][:,P_inorder])", "slg.cholesky(ZTZ[np.ix_(P_inorder,P_inorder)])", "linalg.cholesky(ZTZ[P_inorder][:,P_inorder])"):
                 return st.copy(U="fresh")
@@ -555,7 +564,7 @@ class Machine:
                 while isinstance(a, ast.Call) and norm_text(a.func) == "int" and a.args:
                     a = a.args[0]
                 var = norm_text(a)
-                return st.copy(U=("pending:" + var) if st.U == "fresh" else ("undef" if st.U == "undef" else "stale"), sync="append:" + var)
+                return st.copy(U=("pending:" + var) if st.U == "fresh" else ("undef" if st.U == "undef" else "stale"), sync="append:" + var, sol=False)
             # the indices where P is True, ascending: arange(<length of P>)[P] (through any single-assignment temporaries), or numpy's own spellings of it
             full = norm_text(wire.inline_locals(self.f, v)).replace(" ", "").replace('"', "'")
             if isinstance(v, ast.Subscript) and isinstance(v.value, ast.Name):
@@ -581,12 +590,12 @@ class Machine:
             idx = norm_text(tgt.slice).replace(" ", "")
             if base == "P":
                 if idx == "P_initial" and vt == "True" and st.sync == "ok":
-                    return st.copy(sync="warm")
+                    return st.copy(sync="warm", sol=False)
                 if st.sync.startswith("append:") and idx == st.sync.split(":", 1)[1] and vt == "True":
-                    return st.copy(sync="ok", pos=False, dval=False)
+                    return st.copy(sync="ok", pos=False, dval=False)   # (P catches up with the list the solution was, or will be, computed for: `sol` refers to the list)
                 if vt == "False":
-                    return st.copy(sync="stale" if st.sync == "ok" else st.sync, pos=False, zero=False, dval=False)
-                return st.copy(sync="stale", pos=False, dval=False)
+                    return st.copy(sync="stale" if st.sync == "ok" else st.sync, pos=False, zero=False, dval=False, sol=False)
+                return st.copy(sync="stale", pos=False, dval=False, sol=False)
             if base == "s_chol":
                 if idx == "P":
                     # the symmetric positive-definite solve on the passive block: through the local `lstsq` lambda or written out (slg.solve(A, x, assume_a='pos', ...))
@@ -595,18 +604,18 @@ class Machine:
                     ok = solver and [norm_text(a).replace(" ", "") for a in v.args] in (["(ZTZ)[P][:,P]", "(ZTx)[P]"], ["ZTZ[P][:,P]", "ZTx[P]"])
                     if not ok:
                         self.fail(n, "the least-squares solution on P must be lstsq(ZTZ[P][:, P], ZTx[P])", st)
-                    return st.copy(pos=False)
+                    return st.copy(pos=False, sol=bool(ok))
                 if idx == "P_inorder":
                     ok = isinstance(v, ast.Call) and norm_text(v.func).endswith("cho_solve") and vt.endswith("((U,False),ZTx[P_inorder])")
                     if not ok:
                         self.fail(n, "the least-squares solution on the ordered list must be cho_solve((U, False), ZTx[P_inorder])", st)
                     if st.U != "fresh":
                         self.fail(n, "cho_solve uses a Cholesky factor that does not correspond to the current ordered passive list", st)
-                    return st.copy(pos=False)
+                    return st.copy(pos=False, sol=bool(ok) and st.U == "fresh")
                 if idx in (":", "~P") and vt in ("0.0", "0"):
-                    return st.copy(zero=True, pos=False if idx == ":" else st.pos)
+                    return st.copy(zero=True, pos=False if idx == ":" else st.pos, sol=False if idx == ":" else st.sol)
                 self.fail(n, f"unrecognised write into s_chol[{idx}]", st, undecided=True)
-                return st.copy(pos=False, zero=False)
+                return st.copy(pos=False, zero=False, sol=False)
             if base in ("d", "w", "U", "P_inorder"):
                 self.fail(n, f"element write into solver state `{base}`", st)
             return st
@@ -619,7 +628,7 @@ def rule_state(ctx, p: Project):
     rule = "C05.state"
     f = p.func(f"{FN}:fnnls_cholesky")
     M = Machine(ctx, f, rule)
-    init = St(w=False, pos=True, zero=True, dval=False, U="undef", sync="ok", lc0=None)
+    init = St(w=False, pos=True, zero=True, dval=False, U="undef", sync="ok", lc0=None, sol=True)
     M._breaks = []
     end = M.flow(f.node.body, {init.key()})
     if M.bad:
@@ -925,6 +934,7 @@ CONTROLS = [
     Control("warm start: gradient not recomputed", _FN, in_func("fnnls_cholesky", "        d = s_chol.copy()\n        w = ZTx - (ZTZ) @ d\n    else:", "        d = s_chol.copy()\n    else:"), "C05.state"),
     Control("warm start: negative solutions kept in the passive set", _FN, in_func("fnnls_cholesky", _PRUNE, ""), "C05.state"),
     Control("warm start: stale entries left outside the pruned set", _FN, in_func("fnnls_cholesky", "            s_chol[:] = 0.0\n", ""), "C05.state"),
+    Control("main loop: the solve on the enlarged passive set dropped (found by mutation fuzzing)", _FN, in_func("fnnls_cholesky", "        s_chol[P_inorder] = slg.cho_solve((U, False), ZTx[P_inorder])\n\n        P[idmax] = True", "        P[idmax] = True"), "C05.state"),
     Control("main loop: d taken before the constraint fix", _FN, in_func("fnnls_cholesky", "        P[idmax] = True\n", "        P[idmax] = True\n        d = s_chol.copy()\n"), "C05.state"),
     Control("main loop: gradient not recomputed", _FN, in_func("fnnls_cholesky", "        d = s_chol.copy()\n        w = ZTx - (ZTZ) @ d\n        loop_count += 1", "        d = s_chol.copy()\n        loop_count += 1"), "C05.state"),
     Control("main loop: gradient with the wrong sign", _FN, in_func("fnnls_cholesky", "        d = s_chol.copy()\n        w = ZTx - (ZTZ) @ d\n        loop_count += 1", "        d = s_chol.copy()\n        w = (ZTZ) @ d - ZTx\n        loop_count += 1"), "C05.state"),
